@@ -12,9 +12,18 @@ K_RE = re.compile(r" \(k(?: \([0-9 ]*\))*\)")
 SP_RE = re.compile(r" \(sp [a-z?]*\)")
 
 
+TH_RE = re.compile(r" \(th[0-9 ]*\)")
+
+
 def strip_known(line):
     """Removes the model-only `(k (sw class ...) ...)` and `(sp ...)` elements from a model.out line."""
-    return SP_RE.sub("", K_RE.sub("", line))
+    return TH_RE.sub("", SP_RE.sub("", K_RE.sub("", line)))
+
+
+def scope_of(line):
+    """switch sets for which the end-to-end C01 theorem applies to this rule (Model/Scope.v)"""
+    m = TH_RE.search(line)
+    return set(int(x) for x in m.group(0)[4:-1].split()) if m else set()
 
 
 def spec_of(line):
